@@ -87,21 +87,20 @@ class IniScenario:
         self.pattern = r.choice(list(PATTERNS) + [None])
         if self.pattern:
             self.keys_text["message_pattern"] = self.pattern
-        self.stdout = self.stderr = False
-        x = r.random()
-        if x < 0.3:
-            self.keys_text["stdout"] = "true"
-            self.stdout = True
-        elif x < 0.45:
-            self.keys_text["stdout_color"] = "true"
-            self.stdout = True
-        x = r.random()
-        if x < 0.3:
-            self.keys_text["stderr"] = "true"
-            self.stderr = True
-        elif x < 0.45:
-            self.keys_text["stderr_color"] = "true"
-            self.stderr = True
+        # every value of the four console keys: absent / false / true (an output is on when its key or its colour key
+        # is true - an explicit false of one does not veto the other)
+        def tri():
+            return r.choice([None, None, "false", "true"])
+        vals = {k: tri() for k in ("stdout", "stdout_color", "stderr", "stderr_color")}
+        if r.random() < 0.35:
+            vals["stdout"] = vals["stdout_color"] = None
+        if r.random() < 0.35:
+            vals["stderr"] = vals["stderr_color"] = None
+        for k, v in vals.items():
+            if v is not None:
+                self.keys_text[k] = v
+        self.stdout = "true" in (vals["stdout"], vals["stdout_color"])
+        self.stderr = "true" in (vals["stderr"], vals["stderr_color"])
         self.platform = True
         x = r.random()
         if x < 0.5:
@@ -126,6 +125,8 @@ class IniScenario:
         self.async_ = r.random() < 0.4
         if self.async_:
             self.keys_text["async"] = "true"
+        elif r.random() < 0.3:
+            self.keys_text["async"] = "false"
         self.group = r.choice(["logger", "logger", "log2"])
         self.via_settings = r.random() < 0.3
         self.msgs = gen_msgs(r, r.randint(1, 8))
